@@ -302,11 +302,33 @@ PROPS = {
                       "unit sets dumped from the live SDK for every integer in [0,2000] (thorough: [0,200000]). Float side, theorems "
                       "(unbounded): trimFraction returns the integer part of a decimal rendering untouched and removes only trailing "
                       "zeros of the fraction (value kept), and this is what the formatter prints for every finite float64 count. "
-                      "Partial: the string-level round trip for arbitrary definitions and the float round trip within tolerance are "
-                      "carried by the correspondence check and the direct predicate only.",
+                      "String level, ARBITRARY well-formed definitions, unbounded (no sweep): (a) C16_matcher_sound / "
+                      "C16_matcher_complete_weak - the model's backtracking matcher is sound w.r.t. a declarative semantics of the whole "
+                      "regexp language of Schema/Regex.v, and with the fuel the model gives it it answers whenever a declarative match "
+                      "exists; (b) C16_parse_sound - for every string, if ParseInt answers n then the trimmed input is a tokenisation "
+                      "(optional spaces; per multiplier in strictly descending order and last the base unit: nothing, or count, spaces, "
+                      "one of the four declared names) and n is exactly the sum of count x multiplier with every partial sum in int64; "
+                      "(c) C16_roundtrip_partial - for every definition satisfying the boolean names_unambiguous (name heads are not "
+                      "digits/spaces/'.'+digit, names do not end in a trimmed byte, no name is a proper prefix of another that continues "
+                      "with a digit or space, different units share no name) and EVERY n in [0, max int64]: ParseInt(FormatShortInt n) = n "
+                      "and ParseInt(FormatLongInt n) = n; (d) C16_roundtrip_builtin_all - the five built-in sets dumped from the live SDK "
+                      "are unambiguous, so their round trip holds on all of [0, max int64]; (e) C16_roundtrip_arbitrary_refuted + one "
+                      "witness per clause - without names_unambiguous the round trip is false in the model, and the SDK answers "
+                      "identically on the witnesses (3600 -> \"1m\" -> 60 when two units share the name \"m\"); "
+                      "(f) C16_parse_complete / C16_parse_spec / C16_parse_spec_builtin - for definitions with plain names (boolean "
+                      "names_plain: no digit, space or point inside a name, different units share no name; true of the five built-in "
+                      "sets) ParseInt s = n IF AND ONLY IF the trimmed input is a non-empty tokenisation whose counts, products and "
+                      "partial sums are int64 and whose sum is n: every well-formed string is accepted with the right number, every "
+                      "other string is rejected (C16_tokens_determined: the tokens are a function of the string); "
+                      "(g) C16_parse_float_sound / C16_parse_float_of_int - a successful ParseFloat is the float accumulation over a "
+                      "tokenisation of the input, and wherever ParseInt answers n ParseFloat answers float64(n). "
+                      "Partial: names_unambiguous is sufficient, not proved weakest; the float round trip within tolerance is carried by "
+                      "the correspondence check and the direct predicate only.",
         "level_note": "Model = Schema/Units.v + Schema/Regex.v (backtracking matcher with Go's leftmost-first semantics), hand-written; "
                       "tied to schema/units.go by differential runs on generated definitions and strings; Generated/Tables.v is re-dumped "
-                      "from the SDK on every run. Go's regexp engine is modelled, not verified.",
+                      "from the SDK on every run. Go's regexp engine is modelled, not verified: the string-level theorems are about the "
+                      "model's matcher (proved sound and weakly complete against a declarative regexp semantics); which of several "
+                      "matches leftmost-first picks is not characterised - the round trip does not need it (the match is unique).",
         "design_ref": "DESIGN.md §5 C16",
     },
 }
